@@ -1,0 +1,56 @@
+//go:build verif
+
+package common
+
+import "sync/atomic"
+
+// VerifEnabled is true when the package is built with the `verif` tag.
+// All verification hooks are guarded by it, so they vanish without the tag.
+const VerifEnabled = true
+
+// VerifTracer receives the events emitted at linearization points and
+// intercepts the I/O calls issued against the data file.
+type VerifTracer interface {
+	// Event is called after a state change, while the lock protecting it is held.
+	Event(owner any, name string, fields map[string]any)
+	// IO is called before the I/O call is issued. A non-nil error is returned to
+	// the caller instead of performing the call; for a write, the first n bytes
+	// are still written (a short write). It may block (scheduler gate).
+	IO(owner any, kind string, off int64, data []byte) (n int, err error)
+	// Yield is called at named scheduling points. It may block.
+	Yield(owner any, point string)
+}
+
+type verifTracerBox struct{ t VerifTracer }
+
+var verifTracer atomic.Pointer[verifTracerBox]
+
+// SetVerifTracer installs (or, with nil, removes) the tracer.
+func SetVerifTracer(t VerifTracer) {
+	if t == nil {
+		verifTracer.Store(nil)
+		return
+	}
+	verifTracer.Store(&verifTracerBox{t: t})
+}
+
+func VerifTracing() bool { return verifTracer.Load() != nil }
+
+func VerifEvent(owner any, name string, fields map[string]any) {
+	if b := verifTracer.Load(); b != nil {
+		b.t.Event(owner, name, fields)
+	}
+}
+
+func VerifIO(owner any, kind string, off int64, data []byte) (int, error) {
+	if b := verifTracer.Load(); b != nil {
+		return b.t.IO(owner, kind, off, data)
+	}
+	return 0, nil
+}
+
+func VerifYield(owner any, point string) {
+	if b := verifTracer.Load(); b != nil {
+		b.t.Yield(owner, point)
+	}
+}
